@@ -58,7 +58,9 @@ impl Drop for AssignedCredits {
             && let Some(port) = self.port_inner.upgrade()
         {
             let mut port = port.lock().unwrap();
-            port.credits += self.port;
+            // The remote endpoint may have provided credits in the meantime, thus this
+            // must not overflow. CreditProvider::provide limits the sum to u32::MAX.
+            port.credits = port.credits.saturating_add(self.port);
         }
     }
 }
